@@ -11,6 +11,7 @@ import (
 	"crypto/sha256"
 	"fmt"
 	"net"
+	"regexp"
 	"strings"
 	"sync"
 	"time"
@@ -183,14 +184,40 @@ func finMod(vd []byte, mode string) []byte {
 	return vd
 }
 
-type stepErr struct{ s string }
+type stepErr struct {
+	s   string
+	err error
+}
 
-func fail(format string, a ...interface{}) { panic(stepErr{fmt.Sprintf(format, a...)}) }
+func fail(format string, a ...interface{}) { panic(stepErr{s: fmt.Sprintf(format, a...)}) }
+
+// failErr: the step failed with an error of the record layer (possibly an alert from the victim)
+func failErr(err error, what string) { panic(stepErr{s: fmt.Sprintf("%s: %v", what, err), err: err}) }
+
+// text of a stopped flow; an alert received from the victim is marked ALERT=<desc>;
+func (e stepErr) text() string {
+	if d, remote, ok := gmtls.VerifAlertNumber(e.err); ok && remote {
+		return fmt.Sprintf("stopped: ALERT=%d; %s", d, e.s)
+	}
+	return "stopped: " + e.s
+}
+
+var alertMark = regexp.MustCompile(`ALERT=(\d+);`)
+
+// withAlert: the observation of the NEW attack cases: "err a<desc>" when the scripted peer saw an alert from the victim.
+func withAlert(res, detail string) string {
+	if res == "err" {
+		if m := alertMark.FindStringSubmatch(detail); m != nil {
+			return "err a" + m[1]
+		}
+	}
+	return res
+}
 
 func expect(vc *gmtls.VerifConn, want uint8, what string) []byte {
 	typ, raw, err := vc.ReadHandshakeRaw()
 	if err != nil {
-		fail("reading %s: %v", what, err)
+		failErr(err, "reading "+what)
 	}
 	if typ != want {
 		fail("reading %s: got handshake type %d", what, typ)
@@ -200,7 +227,7 @@ func expect(vc *gmtls.VerifConn, want uint8, what string) []byte {
 
 func must(err error, what string) {
 	if err != nil {
-		fail("%s: %v", what, err)
+		failErr(err, what)
 	}
 }
 
@@ -211,7 +238,7 @@ func attackServer(conn net.Conn, suite uint16, d srvAtk, sendCR bool) (log strin
 	defer func() {
 		if r := recover(); r != nil {
 			if e, ok := r.(stepErr); ok {
-				log = "stopped: " + e.s
+				log = e.text()
 				return
 			}
 			panic(r)
@@ -357,6 +384,15 @@ func parseKV(s string) map[string]string {
 }
 
 func runAS(suite uint16, attack, cfg string) (string, string) {
+	if d3, ok := serverAttack3(attack); ok { // round 9: observation with the alert
+		kv := parseKV(cfg)
+		r, det := runPair(
+			func(conn net.Conn) *gmtls.Conn {
+				return gmtls.Client(conn, clientConfig(suite, kv["cc"] == "1", d3.now, d3.name))
+			},
+			func(conn net.Conn) string { return attackServer(conn, suite, d3, kv["cr"] == "1") })
+		return withAlert(r, det), det
+	}
 	d, ok := serverAttack(attack)
 	if !ok {
 		return "BADCASE", ""
@@ -446,7 +482,7 @@ func attackClient(conn net.Conn, suite uint16, d cliAtk, prev *recorded, rec *re
 	defer func() {
 		if r := recover(); r != nil {
 			if e, ok := r.(stepErr); ok {
-				log = "stopped: " + e.s
+				log = e.text()
 				return
 			}
 			panic(r)
